@@ -33,6 +33,11 @@ package atree
 //@   ensures h == ch64(b, seed)
 //@   pure
 
+//@ ghost ch64x2 : fn(a int, b int, seed int) int
+//@ extern circlehash.Hash64Uint64x2(a, b, seed) (h)
+//@   ensures h == ch64x2(a, b, seed)
+//@   pure
+
 //@ extern sync.Pool.Put(x)
 //@   pure
 
